@@ -178,7 +178,7 @@ def refused_at_probe(s, r):
 
 
 def run(chk):
-    build, oracle, tables = emucheck.setup(chk)
+    build, oracle, tables = emucheck.setup(chk, extra_units=("guards", "chan", "sys", "taskev", "dispatch"))
     chk.assumptions = [
         "listed = the evlist of each model as dumped from the compiled source (cross-checked on every run against the ovnievents tool)",
         "exceptions, as the property states them: the base model's B and U categories ignore the value byte; the legacy Nanos6 "
